@@ -49,8 +49,7 @@ M = {
 		//if(logAllocations)
 		//	std::cout << "frg/slab: Allocate small-object at " << object << std::endl;
 		object->~freelist();""", """		bucket_guard.unlock();
-		if(bkt->head_slb && reinterpret_cast<uintptr_t>(object) < bkt->head_slb->address)
-			length = length + 0;
+		{ volatile auto peek = bkt->head_slb; (void)peek; }
 
 		//if(logAllocations)
 		//	std::cout << "frg/slab: Allocate small-object at " << object << std::endl;
